@@ -77,6 +77,16 @@ func checkC05(e *Env) {
 			either("I.in-responses.length", "length fits behind the offset inside the responses section",
 				gate.CallOK("", "bundle.parseIndexSection*$1", "call:(*cbor.Decoder).DecodeUint(*)#0", "call:(*cbor.Decoder).DecodeUint(*)#0"),
 				gate.Cmp("", "call:(*cbor.Decoder).DecodeUint(*)#0", token.LEQ, `(call:bundle.FindSection(param:sos,const:"responses")#0.Length - call:(*cbor.Decoder).DecodeUint(*)#0)`)))
+		// the range-checking closure bounds offset and length by the length of the
+		// responses section itself (an absolute end position would admit entries
+		// that lie behind the section)
+		if cl, ok := e.P.FuncOK(load.FuncName(fn) + "$1"); ok {
+			e.requireGates("GATE", cl, gate.Outcome{Kind: gate.ErrNil, Idx: 2}, noCfg,
+				gate.Cmp("I.closure.offset", "param:offset", token.LEQ, "free:respso.Length"),
+				gate.Cmp("I.closure.length", "param:length", token.LEQ, "(free:respso.Length - param:offset)"))
+			e.requireResult("RESULT", cl, gate.Outcome{Kind: gate.ErrNil, Idx: 2}, 0, "(free:respSectionOffset + param:offset)", "the offset made absolute by the start of the responses section")
+			e.requireResult("RESULT", cl, gate.Outcome{Kind: gate.ErrNil, Idx: 2}, 1, "param:length", "the length unchanged")
+		}
 		e.requireGates("GATE", fn, ok1, noCfg,
 			gate.Cmp("I.responses-found", `call:bundle.FindSection(param:sos,const:"responses")#2`, token.EQL, "const:true").WithEdge(func(f gate.Fact) bool {
 				return f.Kind == gate.FBool && f.Val && prov.Of(f.V) == `call:bundle.FindSection(param:sos,const:"responses")#2`
